@@ -2,6 +2,7 @@ import Driver.Mem
 import Driver.Core
 import Driver.Bst
 import Driver.Map
+import Driver.Chain
 
 def main (args : List String) : IO UInt32 := do
   match args with
@@ -9,4 +10,5 @@ def main (args : List String) : IO UInt32 := do
   | ["core"] => Driver.Core.run; return 0
   | ["bst"] => Driver.Bst.run; return 0
   | ["map"] => Driver.Map.run; return 0
+  | ["chain"] | ["queue"] | ["stack"] | ["list"] => Driver.Chain.run; return 0
   | _ => IO.eprintln "usage: lmdriver <model>"; return 2
